@@ -421,6 +421,9 @@ class C07Monitor(Monitor):
                         x.violate(f"C07/seed-not-in-initial-population:{type(c).__name__}", f"initial population of {c.id} does not contain its sprout seed")
                     else:
                         x.flag("seed found in initial population")
+                        g = np.asarray(sd.genome, dtype=float)
+                        if np.any(g == x.w.box[:, 0]) or np.any(g == x.w.box[:, 1]):
+                            x.flag("seed exactly on a face of the box found in initial population")
 
 
 # ======================================================================================
@@ -438,6 +441,8 @@ class C18Monitor(Monitor):
         self.any_active = False
         self.all_asleep = False
         self.all_collapsed_de = False
+        self.not_woken = set()
+        self.not_woken_prev = set()
 
     def on(self, kind, tree, info):
         x = self.x
@@ -446,12 +451,32 @@ class C18Monitor(Monitor):
             self.round = {"P": {d.id for l, d in tree.all_demes if d.is_active and l < nl - 1}, "S": None}
         elif kind == "round_end":
             self.round["S"] = {d.id for d, c in info["seeds"].items() if c.individuals}
+            self.not_woken = set()
+            spec = x.desc.get("sprout") or {}
+            if x.w.hib and spec.get("kind") in ("simple", "nbc", "nbclocal", "composed"):
+                # the same round played by a FRESH mechanism of the same configuration (new generator / filter objects, nothing
+                # remembered from earlier rounds): which sleeping demes would it wake?
+                import random as _random
+
+                from .world import make_sprout
+
+                st = (np.random.get_state(), _random.getstate())
+                try:
+                    fs = make_sprout(spec, x.w, x.w.box).get_seeds(tree)
+                    self.not_woken = {p.id for p, c in fs.items() if c.individuals and hib_flag(p) is True and p.id not in self.round["S"]}
+                    x.flag("round replayed with a fresh mechanism")
+                except Exception as e:
+                    x.note(f"fresh mechanism raised {type(e).__name__}")
+                finally:
+                    np.random.set_state(st[0])
+                    _random.setstate(st[1])
         elif kind == "step_begin":
             self.nlog = len(x.w.log)
             c = census(tree)
             self.any_active = any(v["active"] for v in c.values())
             act = [v for v in c.values() if v["active"]]
             self.all_asleep = bool(act) and all(v["hib"] for v in act)
+            self.not_woken_prev = set(self.not_woken)
             # differential-evolution demes whose members are all the same point (difference vectors are all zero)
             running = [d for _, d in tree.all_demes if d.is_active and not (x.w.hib and hib_flag(d) is True)]
             self.all_collapsed_de = bool(running) and all(
@@ -473,7 +498,13 @@ class C18Monitor(Monitor):
             return
         # progress
         if self.any_active and len(x.w.log) == self.nlog:
-            if hib_on and self.all_asleep:
+            if hib_on and self.all_asleep and self.not_woken_prev:
+                x.violate(
+                    "C18/stall:sleeping-deme-not-woken-although-a-fresh-mechanism-of-the-same-configuration-sprouts-from-it",
+                    f"a metaepoch passed without any objective evaluation: every active deme was hibernating, and in the last round the mechanism took no sprout "
+                    f"from {sorted(self.not_woken_prev)} although a new mechanism object built from the same configuration does (the mechanism remembers something)",
+                )
+            elif hib_on and self.all_asleep:
                 x.violate(
                     "C18/stall:hibernation-on-all-active-demes-hibernating",
                     "a metaepoch passed without any objective evaluation: every active deme was hibernating at its start",
